@@ -154,7 +154,8 @@ class reusable_storage_mtsafe: public reusable_storage {
 public:
     void *alloc(std::size_t sz)  {
         void *p;
-        if (_busy.exchange(true, std::memory_order_relaxed)) {
+        //acquire - we are taking over the block (its pointer, capacity and content) from the previous owner
+        if (_busy.exchange(true, std::memory_order_acquire)) {
             p = ::operator new(sz+sizeof(reusable_storage_mtsafe **));
         } else {
             p = reusable_storage::alloc(sz+sizeof(reusable_storage_mtsafe **));
@@ -167,7 +168,8 @@ public:
         auto s = reinterpret_cast<reusable_storage_mtsafe **>(reinterpret_cast<char *>(ptr) + sz);
         auto me = *s;
         if (ptr == me->_ptr) {
-            me->_busy.store(false, std::memory_order_relaxed);
+            //release - hand over the block to the next owner
+            me->_busy.store(false, std::memory_order_release);
         } else {
             ::operator delete(ptr);
         }
